@@ -199,31 +199,29 @@ theorem C06_partial (i : Img) (p1 p2 : UInt8) (e : Enc) (hq : InQuantifier i p1 
   | d8 rows => exact C06_8bit_partial W H ox oy rows p1 p2 e hq
   | d16 rows =>
     cases e with
-    | raw => simp [supportedB] at hs
+    | raw => rw [supportedB_d16_raw] at hs; cases hs
     | packed opsRows =>
-      simp only [supportedB, Bool.and_eq_true, beq_iff_eq, List.all_eq_true, Bool.not_eq_true'] at hs
-      obtain ⟨_, ⟨hox, hoy⟩, hst⟩ := hs
+      obtain ⟨hox, hoy, hst⟩ := supportedB_d16_packed W H ox oy rows opsRows hs
       subst hox hoy
       obtain ⟨_, _, hrows, hpix⟩ := wf16 W H 0 0 rows hq.1
       have hfit := hq.2.1
       simp only [fitsHeader, decide_eq_true_eq] at hfit
       obtain ⟨hW, hH, _⟩ := fits_bounds W H hfit
-      refine ⟨_, C06_16bit_packed_bytes W H rows p1 p2 opsRows hq (by simpa [Img.w] using hst), ?_⟩
+      refine ⟨_, C06_16bit_packed_bytes W H rows p1 p2 opsRows hq (by simpa using hst), ?_⟩
       have := read_bmp16 W H hW hH rows (by simpa using hrows) (by simpa using hpix)
       rw [List.append_nil] at this
       exact this
   | d32 rows =>
     cases e with
-    | raw => simp [supportedB] at hs
+    | raw => rw [supportedB_d32_raw] at hs; cases hs
     | packed opsRows =>
-      simp only [supportedB, Bool.and_eq_true, beq_iff_eq, bne_iff_ne, ne_eq] at hs
-      obtain ⟨_, ⟨hox, hoy⟩, hlen⟩ := hs
+      obtain ⟨hox, hoy, hlen⟩ := supportedB_d32_packed W H ox oy rows opsRows hs
       subst hox hoy
       obtain ⟨_, _, hrows, hpix⟩ := wf32 W H 0 0 rows hq.1
       have hfit := hq.2.1
       simp only [fitsHeader, decide_eq_true_eq] at hfit
       obtain ⟨hW, hH, _⟩ := fits_bounds W H hfit
-      refine ⟨_, C06_32bit_packed_bytes W H rows p1 p2 opsRows hq (by simpa [Img.w, Img.h] using hlen), ?_⟩
+      refine ⟨_, C06_32bit_packed_bytes W H rows p1 p2 opsRows hq (by simpa using hlen), ?_⟩
       have := read_bmp24 W H hW hH rows (by simpa using hrows) (by simpa using hpix)
       rw [List.append_nil] at this
       exact this
@@ -266,30 +264,28 @@ theorem C06_identity_partial (i : Img) (p1 p2 q1 q2 : UInt8) (e e' : Enc)
       | packed b => exact C06_8bit_identity_packed W H ox oy rows p1 p2 q1 q2 a b h h'
   | d16 rows =>
     cases e with
-    | raw => simp [supportedB] at hs
+    | raw => rw [supportedB_d16_raw] at hs; cases hs
     | packed a =>
       cases e' with
-      | raw => simp [supportedB] at hs'
+      | raw => rw [supportedB_d16_raw] at hs'; cases hs'
       | packed b =>
-        simp only [supportedB, Bool.and_eq_true, beq_iff_eq, List.all_eq_true, Bool.not_eq_true'] at hs hs'
-        obtain ⟨_, ⟨hox, hoy⟩, hst⟩ := hs
-        obtain ⟨_, _, hst'⟩ := hs'
+        obtain ⟨hox, hoy, hst⟩ := supportedB_d16_packed W H ox oy rows a hs
+        obtain ⟨_, _, hst'⟩ := supportedB_d16_packed W H ox oy rows b hs'
         subst hox hoy
-        rw [C06_16bit_packed_bytes W H rows p1 p2 a h (by simpa [Img.w] using hst),
-            C06_16bit_packed_bytes W H rows q1 q2 b h' (by simpa [Img.w] using hst')]
+        rw [C06_16bit_packed_bytes W H rows p1 p2 a h (by simpa using hst),
+            C06_16bit_packed_bytes W H rows q1 q2 b h' (by simpa using hst')]
   | d32 rows =>
     cases e with
-    | raw => simp [supportedB] at hs
+    | raw => rw [supportedB_d32_raw] at hs; cases hs
     | packed a =>
       cases e' with
-      | raw => simp [supportedB] at hs'
+      | raw => rw [supportedB_d32_raw] at hs'; cases hs'
       | packed b =>
-        simp only [supportedB, Bool.and_eq_true, beq_iff_eq, bne_iff_ne, ne_eq] at hs hs'
-        obtain ⟨_, ⟨hox, hoy⟩, hlen⟩ := hs
-        obtain ⟨_, _, hlen'⟩ := hs'
+        obtain ⟨hox, hoy, hlen⟩ := supportedB_d32_packed W H ox oy rows a hs
+        obtain ⟨_, _, hlen'⟩ := supportedB_d32_packed W H ox oy rows b hs'
         subst hox hoy
-        rw [C06_32bit_packed_bytes W H rows p1 p2 a h (by simpa [Img.w, Img.h] using hlen),
-            C06_32bit_packed_bytes W H rows q1 q2 b h' (by simpa [Img.w, Img.h] using hlen')]
+        rw [C06_32bit_packed_bytes W H rows p1 p2 a h (by simpa using hlen),
+            C06_32bit_packed_bytes W H rows q1 q2 b h' (by simpa using hlen')]
 
 /-! ### the excluded classes really fail (each replayed on the real code: corpus/C06/open_*.json) -/
 
